@@ -14,7 +14,7 @@ Elem == [k |-> <<"a">>, sp |-> <<"s">>, cs |-> <<"c", "s">>, cm |-> <<"c", "a">>
          alt |-> <<"o{", "a", "c", "a", "c}">>, alte |-> <<"o{", "c", "a", "c}">>,
          alts |-> <<"o{", "a", "c", "s", "a", "c}">>, nest |-> <<"o{", "a", "c", "o{", "a", "c", "a", "c}", "c}">>,
          eq |-> <<"e">>, par |-> <<"o(", "a", "c)">>, cls |-> <<"o[", "a", "c]">>, hash |-> <<"h">>,
-         var |-> <<"at", "o{", "a", "c}">>, esc |-> <<"bs", "o{">>, escc |-> <<"bs", "c}">>, escq |-> <<"bs", "q">>, escs |-> <<"bs", "s">>, bsbs |-> <<"bs", "bs">>, u |-> <<"u">>, st |-> <<"st">>, sl |-> <<"sl">>]
+         var |-> <<"at", "o{", "a", "c}">>, esc |-> <<"bs", "o{">>, escc |-> <<"bs", "c}">>, escq |-> <<"bs", "q">>, escs |-> <<"bs", "s">>, bsbs |-> <<"bs", "bs">>, dol |-> <<"dl", "a">>, pct |-> <<"pc", "a">>, u |-> <<"u">>, st |-> <<"st">>, sl |-> <<"sl">>]
 E == DOMAIN Elem
 PathOf(es) == <<"sl">> \o Flat([i \in DOMAIN es |-> Elem[es[i]]])
 ElemSeqs(n) == UNION {[1..m -> E] : m \in 0..n}
